@@ -37,7 +37,19 @@ FileClause(ev) ==
   ELSE 0
 IsCanonicalFile(ev) == ev.op = "file" /\ RefParse(ev.bytes, ev.content.endian).ok /\ ev.bytes = Canon(ev.content)
 
+\* a large archive built by rule: the header totals must be the rule's numbers, mila's own re-parse must show the
+\* built content (compared in the harness) and re-serializing it must reproduce the image
+BigClause(ev) ==
+  LET h == ev.head  e == ev.endian IN
+  IF Len(h) < 32 THEN 1
+  ELSE IF Rd32(h, 0, e) # ev.len \/ Rd32(h, 4, e) # ev.size \/ Rd32(h, 8, e) # ev.n_text + ev.n_ptrs
+          \/ Rd32(h, 12, e) # ev.n_label_names THEN 1
+  ELSE IF ~ev.reparsed_equal THEN 4
+  ELSE IF ~ev.stable THEN 7
+  ELSE 0
+
 Clause(ev) == CASE ev.op = "image" -> ImageClause(ev)
+                [] ev.op = "big"   -> BigClause(ev)
                 [] ev.op = "file"  -> FileClause(ev)
                 [] OTHER           -> 8          \* mila failed to serialize / parse its own archive
 
